@@ -120,6 +120,37 @@ def mk_replay(kind):
     return replay
 
 
+def r_stored(args):
+    """through the public API: the command whose AST class the unit constructed, with the lexeme in its inner query"""
+    import importlib
+    from mindsdb_sql import parse_sql
+    m = importlib.import_module('harness.ch_C16')
+    name, c, q, req = m.CONSTRUCTORS[int(args['k'])]
+    s = args['s']
+    inner = 'select ' + s + ' x' + ('; select 2' if args.get('two') else '')
+    info = {'class': name, 'attribute': q, 'inner': inner}
+    cmds = {'CreateJob': 'CREATE JOB j (%s) EVERY hour' if q == 'query_str' else 'CREATE JOB j (select 1) EVERY hour IF (%s)', 'CreateView': 'CREATE VIEW v (%s)',
+            'CreateTrigger': 'CREATE TRIGGER tr ON db.tbl (%s)', 'Evaluate': 'EVALUATE acc FROM (%s)', 'CreatePredictor': 'CREATE MODEL m FROM db (%s) PREDICT y',
+            'RetrainPredictor': 'RETRAIN m FROM db (%s)', 'FinetunePredictor': 'FINETUNE m FROM db (%s)', 'NativeQuery': 'SELECT * FROM db (%s)',
+            'CreateAnomalyDetectionModel': 'CREATE ANOMALY DETECTION MODEL m FROM db (%s)'}
+    key = 'embedded-stored:%s.%s' % (name, q)
+    if name in cmds:
+        sql = cmds[name] % inner
+        try:
+            ast = parse_sql(sql, 'mindsdb')
+            stored = getattr(ast.from_table, 'query') if name == 'NativeQuery' else getattr(ast, q)
+            info.update(sql=sql, stored=stored)
+            if isinstance(stored, str) and (s not in stored or strip_ws(stored) != strip_ws(inner)):
+                return True, info, key, '%s stores %r for the inner query %r' % (name, stored, inner)
+        except Exception as e:  # noqa
+            info['public_api'] = repr(e)[:120]
+    # the constructor itself (real code, called the way the grammar action calls it)
+    stored = m.stored_by(int(args['k']), inner)
+    info['stored_by_constructor'] = stored
+    bad = not (isinstance(stored, str) and s in stored and m._outside(stored, s) == m._outside(inner, s))
+    return bad, info, key, '%s(%s=%r) stores %r' % (name, q, inner, stored)
+
+
 def r_layout(args, pos=1):
     import importlib
     m = importlib.import_module('harness.ch_C16')
@@ -132,6 +163,8 @@ def r_layout(args, pos=1):
 def specs():
     sp = [dict(fn=k, twin=('reach' if k == 'quote_string' else None), replay=mk_replay(k))
           for k in ('quote_string', 'dquote_string', 'variable', 'system_variable', 'identifier', 'number')]
+    sp.append(dict(fn='stored_quote_string', twin='stored_reach', replay=r_stored))
+    sp.append(dict(fn='stored_dquote_string', twin=None, replay=r_stored))
     sp.append(dict(fn='layout', twin='layout_reach', replay=r_layout))
     sp.append(dict(fn='layout_first', twin='layout_reach', replay=lambda a: r_layout(a, 0)))
     sp.append(dict(fn='layout_last', twin='layout_reach', replay=lambda a: r_layout(a, 2)))
@@ -144,7 +177,7 @@ def run(tier):
     os.environ['VERIF_STRLEN'] = str(n)
     run.bounds = {'lexeme_len_max': n, 'layout': 'gaps 0..2, line breaks, block/line comments before and after, 11 lexeme kinds', 'commands': list(COMMANDS)}
     run.functions = ['mindsdb_sql.parser.utils.tokens_to_string', 'MindsDBLexer QUOTE_STRING/DQUOTE_STRING/VARIABLE/SYSTEM_VARIABLE/ID/INTEGER/FLOAT actions',
-                     'MindsDBLexer.tokenize (layout leaves, native)', 'embedding grammar actions (wiring, concrete)']
+                     'MindsDBLexer.tokenize (layout leaves, native)', '__init__ of every AST class taking query_str / if_query_str / query: str (found by reflection)', 'embedding grammar actions (wiring, concrete)']
     run.assumptions = ['STUB: in the symbolic content harnesses Lexeme (str subclass) is replaced by a plain holder with the same .raw, because CrossHair realises str-subclass constructor arguments; the layout leaves and the wiring check use the real class',
                        'content harnesses use three tokens select / LEXEME / x with the lexeme first, in the middle or last (symbolic), single spaces; geometry is covered by the layout harness on 11 concrete lexemes',
                        'multi-line string literals and comments inside the inner query other than between tokens are outside the claim']
